@@ -25,6 +25,27 @@ pub mod rust_log_ref_finder
     /// risking a stack overflow.
     const MAX_BLOCK_COMMENT_DEPTH: usize = 2000;
 
+    /// Byte offsets at which the lines of `code` start (lines end at "\n").
+    fn line_starts(code: &str) -> Vec<usize>
+    {
+        let mut starts = vec![0];
+
+        starts.extend(code.match_indices('\n').map(|(offset, _)| offset + 1));
+
+        starts
+    }
+
+    /// The 1-based line and column (in characters) of the byte offset `pos` in `code`, using the
+    /// line start offsets computed once per file by `line_starts` - asking pest for the line and
+    /// column of a position rescans the file from its beginning every time.
+    fn line_col_at(code: &str, line_starts: &[usize], pos: usize) -> (usize, usize)
+    {
+        let line = line_starts.partition_point(|&start| start <= pos);
+        let line_start = line_starts[line - 1];
+
+        (line, code[line_start..pos].chars().count() + 1)
+    }
+
     /// Returns true if "/*" is opened more than `limit` times without being closed anywhere in the
     /// code. This is an upper bound for the depth of any nested block comment in it.
     fn block_comment_depth_exceeds(code: &str, limit: usize) -> bool
@@ -106,6 +127,7 @@ pub mod rust_log_ref_finder
         }
 
         let mut result = Vec::new();
+        let line_starts = line_starts(code);
 
         if block_comment_depth_exceeds(code, MAX_BLOCK_COMMENT_DEPTH)
         {
@@ -288,11 +310,11 @@ pub mod rust_log_ref_finder
                                     None => continue,
                                     Some(span) =>
                                     {
-                                        code_pos = Some(CodePosition::new(
-                                            span.start(),
-                                            span.start_pos().line_col().0,
-                                            span.start_pos().line_col().1,
-                                        ));
+                                        let (line, column) =
+                                            line_col_at(code, &line_starts, span.start());
+
+                                        code_pos =
+                                            Some(CodePosition::new(span.start(), line, column));
 
                                         ref_kind = LogRefKind::StructuredPreExisting;
                                         reference = RUST_REF_VALUE_PATTERN
@@ -337,16 +359,27 @@ pub mod rust_log_ref_finder
                              */
                             code_pos = Some(match &pos_after_target_arg
                             {
-                                Some(pos) => CodePosition::new(
-                                    pos.pos(),
-                                    pos.line_col().0,
-                                    pos.line_col().1,
-                                ),
-                                None => CodePosition::new(
-                                    rule_ref_container_span.start() + 1,
-                                    rule_ref_container_span.start_pos().line_col().0,
-                                    rule_ref_container_span.start_pos().line_col().1 + 1,
-                                ),
+                                Some(pos) =>
+                                {
+                                    let (line, column) =
+                                        line_col_at(code, &line_starts, pos.pos());
+
+                                    CodePosition::new(pos.pos(), line, column)
+                                },
+                                None =>
+                                {
+                                    let (line, column) = line_col_at(
+                                        code,
+                                        &line_starts,
+                                        rule_ref_container_span.start(),
+                                    );
+
+                                    CodePosition::new(
+                                        rule_ref_container_span.start() + 1,
+                                        line,
+                                        column + 1,
+                                    )
+                                },
                             });
                         }
                     }
@@ -363,11 +396,10 @@ pub mod rust_log_ref_finder
                             None => continue,
                             Some(span) =>
                             {
-                                code_pos = Some(CodePosition::new(
-                                    span.start(),
-                                    span.start_pos().line_col().0,
-                                    span.start_pos().line_col().1,
-                                ));
+                                let (line, column) =
+                                    line_col_at(code, &line_starts, span.start());
+
+                                code_pos = Some(CodePosition::new(span.start(), line, column));
 
                                 ref_kind = LogRefKind::String;
                                 reference =
